@@ -159,16 +159,60 @@ def run(tier, seed, model):
     finally:
         guard.close()
     batch.resolve(camp, "C15")
+    if not camp.oracle_failures:
+        scaling(camp)
     camp.rule = ("22 hand-written streams covering every zero-length field of the grammar (x base and library client) plus "
                  "grammar-derived sessions with one length/count field forced to 0/1/max, truncations, noise tails and flipped "
                  "message types, each delivered whole, byte-at-a-time (<=300 B) and with one random cut; the real client runs in a "
                  "child process (3 GB address space, 20 s) with a handler-invocation limit of 3*len+3 (the bound of the theorem); "
-                 "invocation counts compared with the extracted model; non-trivial = distinct (kind, stream prefix, chunking)")
+                 "invocation counts compared with the extracted model; non-trivial = distinct (kind, stream prefix, chunking); plus a "
+                 "scaling measurement: CPU time of four times the bytes (many small messages in one chunk; one big rectangle in 64-byte "
+                 "chunks) must stay below 8x the time of the bytes + 0.4 s - work proportional to the bytes received, not to their square")
     return camp
+
+
+def scaling(camp):
+    """work proportional to the bytes received: the same kind of stream, four times as long, may cost about four times as much
+    (quadratic buffer handling costs sixteen times); CPU time, generous constants, so that load cannot raise a false alarm"""
+    import time as _t
+    hs = b"RFB 003.008\n\x01\x01\0\0\0\0" + struct.pack("!HH16sI", 1024, 1024, rfbgen.RGB32.block(), 0)
+
+    def bells(n):
+        return [hs + b"\x02" * n]
+
+    def raw64(n_pixels):
+        w = 1024
+        h = n_pixels // w
+        body = b"\0\0\0\x01" + struct.pack("!HHHHi", 0, 0, w, h, 0) + bytes(4 * w * h)
+        data = hs + body + b"\x02"
+        return [data[i:i + 64] for i in range(0, len(data), 64)]
+    for name, make, small in (("many one-byte messages in one chunk", bells, 100_000), ("one raw rectangle in 64-byte chunks", raw64, 150 * 1024)):
+        times = []
+        for n in (small, 4 * small):
+            chunks = make(n)
+            cfg = Cfg(variant=0)
+            t0 = _t.process_time()
+            r = run_real(cfg, chunks)
+            times.append(_t.process_time() - t0)
+            if r["final"][0] != "idle":
+                camp.oracle_failures.append({"kind": "oracle", "property": "C15", "case": {"scaling": name, "n": n},
+                                             "what": f"scaling workload '{name}' ({n}): the client ended {r['final'][:2]}"})
+                return
+        camp.evaluations += 2
+        camp.count("scaling-workload", 2)
+        camp.nontrivial.add(("scaling", name))
+        camp.extra.setdefault("scaling_cpu_s", {})[name] = [round(t, 3) for t in times]
+        if times[1] > 8 * times[0] + 0.4:
+            camp.oracle_failures.append({"kind": "oracle", "property": "C15", "case": {"scaling": name, "n": [small, 4 * small]},
+                                         "what": f"{name}: {small} units cost {times[0]:.2f} s of CPU, {4 * small} units cost {times[1]:.2f} s "
+                                                 f"(more than 8x + 0.4 s): the work is not proportional to the bytes received"})
+            return
 
 
 def replay(payload):
     case = payload["case"]
+    if "scaling" in case:
+        return True, "replay: scaling measurement; re-run ./check C15"
     cfg = cfg_from_payload(case["cfg"])
     chunks = [bytes.fromhex(c) for c in case["chunks"]]
     n = sum(len(c) for c in chunks)
